@@ -866,6 +866,10 @@ class TierModel:
         hot_n, cold_n = self.names(self.hot), self.names(self.cold)
         for name, tier in self.where.items():
             in_hot, in_cold = hot_n.count(name), cold_n.count(name)
+            if tier == 'scheduled':
+                if in_hot or in_cold:
+                    out.append(O.V('C18', 'stored_lists', f"after {op}: {name} is being processed but is listed as stored: hot {hot_n} cold {cold_n}"))
+                continue
             if (in_hot, in_cold) != ((1, 0) if tier == 'hot' else (0, 1)):
                 out.append(O.V('C18', 'stored_lists', f"after {op}: {name} should be stored in {tier} only: hot {hot_n} cold {cold_n}"))
 
@@ -891,6 +895,38 @@ class TierModel:
                     self.count('stored')
                     if self.move is not None:
                         self.last = (self.last[0] - size, self.last[1])
+            elif kind == 'deposit':
+                # data of an observation that is still ingesting: on the hot tier, not yet in any list
+                size = op[1]
+                if self.hot.has_capacity_for(size) and self.hot.current_capacity - size >= 0:
+                    left = size
+                    while left > 0:
+                        chunk = min(left, int(self.hot.max_ingest_data_rate))
+                        self.hot.process_incoming_data_stream(chunk, self.env.now)
+                        left -= chunk
+                    self.data += size
+                    self.count('deposited_unlisted')
+                    if self.move is not None:
+                        self.last = (self.last[0] - size, self.last[1])
+            elif kind == 'schedule':
+                # the scheduler takes the newest stored observation for processing (it stays on the hot tier)
+                if self.hot.observations['stored'] and not (self.move and self.move['dir'] == 'h2c' and not self.move.get('data_done')):
+                    o = self.hot.next_observation_for_processing()
+                    if o is not None:
+                        self.where[o.name] = 'scheduled'
+                        self.count('scheduled')
+            elif kind == 'finish':
+                sched = list(self.hot.observations['scheduled'])
+                if sched:
+                    o = sched[0]
+                    before_free = self.hot.current_capacity
+                    ok = self.hot.remove(o)
+                    if ok:
+                        self.data -= o.total_data_size
+                        self.where.pop(o.name, None)
+                        self.count('finished')
+                        if self.move is not None:
+                            self.last = (self.last[0] + o.total_data_size, self.last[1])
             elif kind in ('h2c', 'c2h') and self.move is None:
                 src, dst = (self.hot, self.cold) if kind == 'h2c' else (self.cold, self.hot)
                 if src.observations['stored']:
@@ -936,6 +972,7 @@ class TierModel:
 
 def tier_history_strategy():
     op = st.one_of(st.tuples(st.just('store'), st.integers(1, 40)), st.just(('h2c',)), st.just(('c2h',)),
+                   st.tuples(st.just('deposit'), st.integers(1, 12)), st.just(('schedule',)), st.just(('finish',)),
                    st.tuples(st.just('step'), st.integers(1, 6)), st.tuples(st.just('step'), st.integers(1, 6))).map(list)
     return st.tuples(st.integers(5, 100), st.integers(5, 100), st.integers(1, 12), st.integers(1, 12),
                      st.lists(op, min_size=2, max_size=30)).map(list)
